@@ -124,6 +124,14 @@ func (f *fn) block(stmts []ast.Stmt, ind int, fin finFn) {
 					}
 				}
 			}
+			// `mode := cipher.NewCBCEncrypter(a.cipher, iv)` followed at once by `mode.CryptBlocks(v, v)`
+			if len(s.Rhs) == 1 {
+				if call, ok := s.Rhs[0].(*ast.CallExpr); ok && fullName(f.calleeOf(call)) == "crypto/cipher.NewCBCEncrypter" {
+					f.cbcEncryptInPlace(s, call, rest)
+					i++
+					continue
+				}
+			}
 			f.assign(s)
 		case *ast.IfStmt:
 			f.ifStmt(s, ind, cont)
@@ -153,6 +161,7 @@ func (f *fn) block(stmts []ast.Stmt, ind int, fin finFn) {
 // commit: the live window becomes part of `buf`; its variable must not be used any more (the next PrependBytes /
 // AppendBytes may move the buffer's contents to a new array)
 func (f *fn) commit(why string) {
+	f.killViews(why)
 	if f.win == nil {
 		return
 	}
@@ -427,7 +436,7 @@ func (f *fn) localAssign(n ast.Node, id *ast.Ident, tok string, rhs ast.Expr) {
 		s = boolTerm(v)
 	}
 	f.bind(name, leanKindType(v.K), s, false)
-	f.vars[obj] = Val{S: name, K: v.K, N: v.N, Epoch: v.Epoch}
+	f.vars[obj] = Val{S: name, K: v.K, N: v.N, Epoch: v.Epoch, View: v.View}
 }
 
 // ---- return ---------------------------------------------------------------------------------------------------
